@@ -204,7 +204,17 @@ def structural(tier, res):
     out.append(frames.Clause(fi.qualname + '#figures_are_stats_fields', not bad, 'HTML data object: not taken from stats: %s' % bad if bad else 'HTML data object copies the analysed figures', kind='auxiliary'))
     fj = find_function(AN + 'export_json')
     sj = ast.unparse(fj.node)
-    badj = [k for k in ('income_total', 'credits_total') if ("'%s': round(stats" % k) not in sj and ("'%s': stats" % k) not in sj]
+    # each summary figure of the JSON export is the analysed stats field: written straight from stats, or through a local bound (once) to stats['<field>']
+    jb = {}
+    for n in ast.walk(fj.node):
+        if isinstance(n, ast.Assign) and len(n.targets) == 1 and isinstance(n.targets[0], ast.Name):
+            jb.setdefault(n.targets[0].id, []).append(ast.unparse(n.value))
+    badj = []
+    for k, field in (('income_total', 'income_total'), ('credits_total', 'credits_total'), ('gross_spending', 'spending_total')):
+        direct = ("'%s': round(stats" % k) in sj or ("'%s': stats" % k) in sj
+        via_local = ("'%s': round(%s, 2)" % (k, k)) in sj and jb.get(k) in (["stats['%s']" % field], ["stats.get('%s', 0)" % field])
+        if not (direct or via_local):
+            badj.append(k)
     out.append(frames.Clause(fj.qualname + '#figures_are_stats_fields', not badj,
                              'JSON summary recomputes %s instead of reporting the analysed figures' % badj if badj else 'JSON summary copies the analysed figures', kind='auxiliary'))
     # embedding
